@@ -5,6 +5,7 @@
 
   config sexp:   (<palette> <qualify>)   palette = "default" | "nb" | "zx" | any other name (→ KeyError)
                                                  | (custom bg node edge dark const discard node_border port_border)
+                                                 | none  (no configuration given: `RenderConfig()`)
                                          qualify = true | false
   dump:  {"name", "graph": {attr: value}, "root": ITEM, "edges": [EDGE]}
          ITEM = {"node": NODE} | {"cluster": "cluster<i>", "attrs": {…}, "body": [ITEM]}
@@ -23,6 +24,7 @@ def parsePalette : Sexp → Option (Option Palette)
   | .list [.atom "custom", a, b, c, d, e, f, g, h] => do
     some (some ⟨← a.text?, ← b.text?, ← c.text?, ← d.text?, ← e.text?, ← f.text?, ← g.text?, ← h.text?⟩)
   | .str name => some (Palette.named name)
+  | .atom "none" => some (some Palette.default)      -- `render_dot()` without a configuration
   | _ => none
 
 def parseBool : Sexp → Option Bool
